@@ -11,6 +11,8 @@
      DrawIntegers(n, size, nonce)
                             s = MergeInt(s, nonce), c = 0; then n times: c += 1,
                             value = (first 8 bytes of MergeInt(s, c) as LE u64) AND (size - 1);
+                            size (a power of two up to 2^63) and the values are 8-byte little-endian
+                            arrays, the mask is applied byte by byte;
                             duplicates are kept; an error when n > MaxTries
      LeadingZeros(nonce)    trailing zero bits of the first 8 bytes (LE u64) of MergeInt(s, nonce);
                             the state does not change
@@ -72,9 +74,24 @@ Decode(f, deg, b) ==
                           ELSE [ok |-> TRUE, v |-> LE(x % P, 4)]
     ELSE [ok |-> ValidElem(f, deg, b), v |-> b]
 
-\* (LE u64 of the first 8 bytes) AND (size - 1) for a power of two size <= 2^24
-IsPow2(n) == \E k \in 0..24 : n = 2 ^ k
-Mask(b, size) == (b[1] + 256 * b[2] + 65536 * b[3]) % size
+(* Domain sizes and drawn integers are usize values, written as 8 little-endian bytes (TLC integers
+   are 32-bit).  A power of two has exactly one bit set; BitIndex is its position k (size = 2^k), -1 when
+   size is not a power of two.  Mask is (LE u64 of the first 8 bytes of b) AND (size - 1): bytes wholly
+   below bit k are kept, the byte containing bit k keeps its low k mod 8 bits, the rest are zero. *)
+RECURSIVE BitIndexFrom(_, _)
+BitIndexFrom(size, i) ==
+  IF i > Len(size) THEN -1
+  ELSE IF size[i] = 0 THEN BitIndexFrom(size, i + 1)
+  ELSE IF size[i] \in {1, 2, 4, 8, 16, 32, 64, 128} /\ \A j \in (i + 1)..Len(size) : size[j] = 0
+         THEN 8 * (i - 1) + TZ8(size[i])
+         ELSE -1
+BitIndex(size) == BitIndexFrom(size, 1)
+IsPow2(size) == Len(size) = 8 /\ IsBytes(size) /\ BitIndex(size) >= 0
+Mask(b, size) ==
+  LET k == BitIndex(size) IN
+  [i \in 1..8 |-> IF 8 * i <= k THEN b[i]
+                  ELSE IF 8 * (i - 1) >= k THEN 0
+                  ELSE b[i] % (2 ^ (k - 8 * (i - 1)))]
 
 \* trailing zero bits of the LE u64 in the first 8 bytes
 RECURSIVE TZFrom(_, _)
@@ -151,7 +168,7 @@ Step(ctx, f, st, op) ==
     [] op.op = "lz"     -> LeadingZeros(ctx, st, op.nonce)
 
 \* documented preconditions of draw_integers (it panics otherwise); generators respect them
-IntsPre(op) == IsPow2(op.size) /\ op.n < op.size
+IntsPre(op) == IsPow2(op.size) /\ BLess(BN(op.n), op.size)
 
 (***************************************************************************)
 (* What the property promises about results, independently of the machine  *)
@@ -159,7 +176,9 @@ IntsPre(op) == IsPow2(op.size) /\ op.n < op.size
 WellFormedResult(f, op, res) ==
   CASE op.op = "draw" -> res.t = "ok" => ValidElem(f, op.deg, res.v)
     [] op.op = "ints" -> res.t = "ok" => /\ Len(res.v) = op.n
-                                         /\ \A j \in 1..Len(res.v) : res.v[j] \in 0..(op.size - 1)
+                                         /\ \A j \in 1..Len(res.v) :
+                                               /\ Len(res.v[j]) = 8 /\ IsBytes(res.v[j])
+                                               /\ BLess(res.v[j], op.size)
     [] op.op = "lz"   -> res.t = "ok" /\ res.v[1] \in 0..64
     [] OTHER          -> TRUE
 =============================================================================
